@@ -36,7 +36,8 @@ find_next_multiple(_T alignment, _T offset)
   if ( alignment == 0 ) {
     return _T(0);
   } else {
-    return ( ( offset + alignment - 1 ) / alignment) * alignment;
+    // offset + alignment - 1 can overflow although the result is representable
+    return ( offset / alignment + ( offset % alignment != 0 ? 1 : 0 ) ) * alignment;
   }
 }
 
